@@ -354,9 +354,24 @@ def rule_gsd(ctx, tu):
     # the cell that gives / receives a molecule is drawn with probability proportional to its real amount: first cell whose
     # running sum *exceeds* the uniform target.  With `<=` a cell whose running sum merely equals the target -- in particular a
     # leading cell holding nothing, target 0 -- is selected: a zero entry receives molecules, or an empty cell is picked forever
+    # (the running sum and the target are found by role: the scalar that accumulates table elements by +=, and the scalar it is
+    # compared with -- whatever they are called)
+    import re as _re
+    acc_names = {s2.base[1].split("'")[0] for s2 in cxa.all_stores(f.body) if s2.base and s2.base[0] == "var" and s2.op == "+=" and
+                 subscript(s2.target) is None and s2.rhs is not None and subscript(strip(s2.rhs, casts=True)) is not None}
+    ctx.need(acc_names, R, "GenerateStochasticDistribution: the running sum of the selection is not found")
+    target_names = set()
+    word = lambda t: set(_re.findall(r"[A-Za-z_][A-Za-z_0-9]*", t))
     for s2, ch in unit:
-        sel = [(t, b) for t, b in ch if "target" in t or "cumul" in t]
-        okk = any(b and t.replace(" ", "").strip("()") in ("target<cumul", "cumul>target") for t, b in sel)
+        sel = [(t, b) for t, b in ch if word(t) & acc_names]
+        okk = False
+        for t, b in sel:
+            m_ = _re.match(r"^\(*([A-Za-z_]\w*)(<|>)([A-Za-z_]\w*)\)*$", t.replace(" ", "").replace("'", ""))
+            if m_ and b:
+                lo, hi = (m_.group(1), m_.group(3)) if m_.group(2) == "<" else (m_.group(3), m_.group(1))
+                if hi in acc_names and lo not in acc_names:
+                    okk = True
+                    target_names.add(lo)
         ctx.check(okk, R, s2.node, f.qual, text(s2.node)[:50] + " selected by " + "; ".join(t for t, _ in sel)[:60],
                   "first cell whose running sum exceeds the target (strict)", "the cell is selected under `%s`, not under the strict "
                   "`target < cumul`: a cell with nothing of the species can be selected (zero does not stay zero; the correction "
@@ -365,7 +380,7 @@ def rule_gsd(ctx, tu):
     # target being a fraction of their floored total: a cell whose real amount is zero has zero weight.  Weighting by the drawn
     # state instead lets a zero cell keep what an unlucky draw gave it and leaves nothing to select from when every draw was 0
     state_in = f.param_names()[0]
-    accs = [s2 for s2 in cxa.all_stores(f.body) if s2.base and s2.base[0] == "var" and s2.base[1].startswith("cumul") and
+    accs = [s2 for s2 in cxa.all_stores(f.body) if s2.base and s2.base[0] == "var" and s2.base[1].split("'")[0] in acc_names and
             s2.op == "+=" and s2.rhs is not None]
     ctx.need(accs, R, "GenerateStochasticDistribution: the running sum of the selection is not found")
     for s2 in accs:
@@ -375,7 +390,8 @@ def rule_gsd(ctx, tu):
                   "the selection is weighted by `%s`, not by the real-valued amounts `%s`: a cell whose real amount is zero can be "
                   "selected, and when the drawn amounts are all zero nothing can be selected (the loop never ends)"
                   % (src_ or text(s2.rhs)[:30], state_in))
-    tg = [x for x in walk(f.body) if x.get("kind") == "VarDecl" and (x.get("name") or "").startswith("target") and kids(x)]
+    tg = [x for x in walk(f.body) if x.get("kind") == "VarDecl" and (x.get("name") or "") in target_names and kids(x)]
+    ctx.need(tg, R, "GenerateStochasticDistribution: the selection target is not found")
     for x in tg:
         srcs = {name_of(strip(subscript(y)[0], casts=True)) for y in walk(kids(x)[-1]) if subscript(y) is not None}
         ctx.check({role.get(s_, s_) for s_ in srcs} == {"tot_species"}, R, x, f.qual, text(x)[:70], "target = u x floored real total", "the target is scaled by "
